@@ -203,6 +203,8 @@ def engage_bounds(rep, rule, mod):
         z = st.new_obj('param', n.u * e, 'zone', {'desc': 'pool zone'})
         with specialised(fn, 3, e) as k:
             if k < 1:
+                if any(not i['ok'] for i in rep.instances if i['rule'] == rule and i['function'] == 'pool_engage'):
+                    return      # the exact-carve clauses already report that the cursor does not advance by elemsz
                 raise AnalysisBroken('pool_engage: no cursor advance by the element-size parameter found')
             rets = it.run_function(fn, st, [PtrVal(h.id), PtrVal(z.id), IntVal(64, n.u * e, None), mk_const(64, e)])
         obs = [ob for ob in it.obligs.values() if ob.kind.startswith('bounds') and ob.objdesc == 'pool zone']
